@@ -33,7 +33,7 @@ def ws_facts(sc):
 
 def _run(fields):
     return {"harness": "hws", "driver": "wsdrv", "fields": fields, "corpus": "ws",
-            "quick": {"n": 320, "shards": 16, "timeout": 400}, "thorough": {"n": 1500, "shards": 32, "timeout": 3000}}
+            "quick": {"n": 320, "shards": 16, "timeout": 1500}, "thorough": {"n": 1500, "shards": 32, "timeout": 3000}}
 
 
 COMMON_ASSUME = [
